@@ -325,6 +325,19 @@ def one_cycle(rec, w, V, case, cyc, openb, transport, probe, ender, rng):
         d = c.call('disconnect')
         want_reason = 'client disconnect'
     w.quiesce()
+    if ender in ('client-main', 'client-abort') and d is not None and \
+            d.get('done') and want_tr == 'websocket' and srv.ws is not None:
+        # the application's disconnect() has returned: a frame the server
+        # sends at that very moment finds nobody listening any more
+        rec.count('frames_right_after_client_disconnect')
+        n_ev = len(c.events)
+        srv.ws.push('4late-at-once')
+        w.quiesce()
+        if any(e['ev'] == 'message' for e in c.events[n_ev:]):
+            V('event-after-disconnect', 'a frame arriving right after '
+              'disconnect(%s) returned was dispatched: %r' % (
+                  'abort=True' if ender == 'client-abort' else '',
+                  [(e['ev'], e.get('data')) for e in c.events[n_ev:]]))
     w.run_until(lambda: c.c.state == 'disconnected' and
                 not w.live_client_tasks(), 60)
     w.advance(12)
@@ -433,6 +446,13 @@ def run_case(rec, case):
                        else 0.0, request_timeout=5, plain_handlers=plain,
                        legacy_disconnect=legacy)
 
+    if kind == 'A':
+        # what a failing WebSocket write raises differs from one network
+        # fault to the other (fake aiohttp session only)
+        w.srv.write_error_kind = ['disconnected', 'reset', 'pipe', 'timeout',
+                                  'unreachable'][
+            sum(map(ord, repr(case['cycles']))) % 5]
+        case['_handlers']['write_error'] = w.srv.write_error_kind
     if case.get('boomdis'):
         # the application's disconnect handler raises (after it ran)
         w.cli.raising_disconnect = True
